@@ -43,7 +43,7 @@ def opts(tier):
             from .c13 import add_scaling
             add_scaling(rng, spec, ctype, p=0.6)      # the one-chunk cache then holds scaled chunks
     o.scaling = scaling
-    return o
+    return gen.deepen(o, tier)
 
 
 def generate(rng, tier):
